@@ -278,6 +278,7 @@ PROPS = {
                    g("coder", "c13coder", q=4, t=8, run="^Test(Prop|Grid)$"),
                    g("gorilla", "c13gorilla", q=4, t=8, run="^Test(Prop|Grid)$"),
                    g("nhooyr", "c13nhooyr", q=4, t=8, run="^Test(Prop|Grid)$")],
+        "fuzz": [{"pkg": "c13", "target": "FuzzWebSocketSeq", "seconds": 150}],
         "timeout": {"quick": 600, "thorough": 3000},
         "rule": ("generated: a compression setting (type in {absent, '', per-message, context-takeover, unknown}; level absent/0-9; window bits absent/0-32) and a "
                  "sequence of 1-40 messages from 1-4 concurrent writers; sizes around 0, 1, the window size (+-1), 32 KiB, 64 KiB (+-1), 1-5 MiB (big-message test); "
@@ -289,7 +290,7 @@ PROPS = {
                  "dictionary-sensitive sequences. Oracle: same number of Reads, byte equality and order (per writer when concurrent, each message carrying "
                  "writer/index/length/crc), captured frames decoded by an independent decoder written in the harness (raw deflate with preset dictionary = "
                  "the last window bytes of plaintext; 4-byte big-endian length prefix on streams), Tx counter = bytes framed, Rx counter = Tx counter. "
-                 "Non-trivial = at least two messages with compression on, or a message of at least 64 KiB, or concurrent writers; distinct by compression key + carrier + size classes."),
+                 "thorough adds a native coverage-guided campaign over message content and cut positions through the in-memory WebSocket pair (any grid cell). Non-trivial = at least three messages under context takeover exceeding the window, or concurrent writers, or a boundary size; distinct by compression key + carrier + size classes."),
         "assumptions": ["window bits above 15 and 0 mean what transport/compress documents (window size clamps); the harness decoder derives the window from the same documented rule",
                         "concurrent writers: only per-writer order is demanded",
                         "loop-back carriers use the real quic-go / webtransport-go / websocket libraries in this process; their own correctness is trusted"],
